@@ -104,12 +104,17 @@ def chain_family():
 
 # extra generator modes per property: (side, quick args, thorough args, tag)
 EXTRA = {
-    "C05": [("cli", ["--scripts=150", "--len=90", "--long=1"], ["--scripts=8000", "--len=100", "--long=1"], "cli-long")],
-    "C06": [("srv", ["--scripts=150", "--len=90", "--long=1"], ["--scripts=8000", "--len=110", "--long=1"], "srv-long")],
+    "C05": [("cli", ["--scripts=150", "--len=90", "--long=1"], ["--scripts=8000", "--len=100", "--long=1"], "cli-long"),
+            ("cli", ["--scripts=100", "--len=90", "--long=1", "--extreme=1"], ["--scripts=4000", "--len=100", "--long=1", "--extreme=1"], "cli-extreme-long")],
+    "C06": [("srv", ["--scripts=150", "--len=90", "--long=1"], ["--scripts=8000", "--len=110", "--long=1"], "srv-long"),
+            ("srv", ["--scripts=100", "--len=90", "--long=1", "--extreme=1"], ["--scripts=4000", "--len=110", "--long=1", "--extreme=1"], "srv-extreme-long")],
     "C11": [("cli", ["--scripts=100", "--len=90", "--long=1"], ["--scripts=4000", "--len=100", "--long=1"], "cli-long")],
     # boundary-valued deadlines and ids, with a formatting (sub=1) and an OpenTelemetry (sub=2) tracing subscriber installed
     "C16": [(side, ["--scripts=120", "--len=70", "--extreme=1", f"--sub={sub}"], ["--scripts=6000", "--len=90", "--extreme=1", f"--sub={sub}"],
-             f"{side}-extreme-sub{sub}") for side in ("cli", "srv") for sub in (0, 1, 2)],
+             f"{side}-extreme-sub{sub}") for side in ("cli", "srv") for sub in (0, 1, 2)] +
+           # an aged connection (clock stepped up to 390 days) that then meets deadlines decades away
+           [(side, ["--scripts=150", "--len=80", "--extreme=1", "--long=1"], ["--scripts=6000", "--len=100", "--extreme=1", "--long=1"],
+             f"{side}-extreme-long") for side in ("cli", "srv")],
 }
 
 # families judged by the monitors only (projection = op lines); none at present
